@@ -181,6 +181,9 @@ func TestC12Names(t *testing.T) {
 			if p != "" {
 				op.P = json.RawMessage(p)
 			}
+			if gk := []string{"", "", "struct", "ptr", "named", "map", "typed"}[k%7]; gk != "" && (p == "{}" || p == "") {
+				op.Go, op.P = gk, GoValueJSON(gk) // the same parameters as a typed Go value
+			}
 			sp := ScriptParams{Conn: 0, ID: k, Script: []Op{op, {Op: "reply", P: json.RawMessage(`{"after":true}`)}}}
 			if more {
 				sp.Script = append([]Op{{Op: "reply", Continues: true, P: json.RawMessage(`{"first":1}`)}}, sp.Script...)
